@@ -234,7 +234,7 @@ struct Seen {
 
 // ------------------------------------------------------------------ the real server
 
-struct Slot { Plan plan; Seen seen; Var json; bool wantJson; bool upload; Str upContent, upName; Slot() : wantJson(false), upload(false) {} };
+struct Slot { Plan plan; Seen seen; Var json; bool wantJson; bool upload; Str upContent, upName; int busy; Slot() : wantJson(false), upload(false), busy(0) {} };
 
 static Mutex gmx;
 static std::map<Str, Slot*> slots;   // by X-Plan token ("" = the current single-op slot)
@@ -243,6 +243,15 @@ static std::vector<Slot*> slotQueue;   // pipelined requests of one connection t
 static size_t slotPos = 0;
 static bool optionsToHandler = false;
 static std::map<Str, Str> dlFiles;     // request path -> file (op dl)
+
+// A slot is owned by the op that made it, but a handler thread may still be inside it when the client side of the op
+// has already returned (e.g. a client that gives up early): handlers mark the slot busy, ops wait for idle before freeing.
+struct SlotUse {
+	Slot* s;
+	SlotUse(Slot* s_) : s(s_) {}
+	~SlotUse();
+};
+static void retireSlot(Slot* sl);
 
 static Slot* nextQueued()
 {
@@ -283,8 +292,10 @@ public:
 			}
 			if (!sl) sl = nextQueued();
 			if (!sl) sl = current;
+			if (sl) sl->busy++;
 		}
 		if (!sl) { r.setCode(500); return; }
+		SlotUse inUse(sl);
 		// what the handler observes
 		Over over;
 		Str mark;
@@ -351,6 +362,21 @@ public:
 };
 
 static Srv* srv = 0;
+
+SlotUse::~SlotUse() { Lock l(gmx); s->busy--; }
+
+static void retireSlot(Slot* sl)
+{
+	for (int k = 0; k < 3000; k++) {
+		{
+			Lock l(gmx);
+			if (current == sl) current = 0;
+			if (sl->busy == 0) { delete sl; return; }
+		}
+		usleep(1000);
+	}
+	// still in use after 3 s: leave it alone (leaked on purpose)
+}
 
 static bool ensureServer()
 {
@@ -469,6 +495,18 @@ static bool rawReadMessage(int fd, Str& pending, Str& msg, int ms)
 	msg = pending.substr(0, need);
 	pending.erase(0, need);
 	return true;
+}
+
+// one response as the raw client sees it: an interim "100 Continue" (answer to Expect) is followed by the final message
+static bool rawReadResponse(int fd, Str& pending, Str& msg, int ms)
+{
+	bool got = rawReadMessage(fd, pending, msg, ms);
+	if (got && (msg.compare(0, 13, "HTTP/1.1 100 ") == 0)) {
+		Str more;
+		got = rawReadMessage(fd, pending, more, ms);
+		msg += more;
+	}
+	return got;
 }
 
 static Str readToEof(int fd, int ms)
@@ -699,18 +737,20 @@ static Str opXchg(const Toks& t)
 {
 	size_t i = 1;
 	Req r;
-	Slot sl;
-	if (!reqOf(t, i, r) || !planOf(t, i, sl.plan)) return "bad-op";
-	if (!ensureServer()) return "err bind";
-	Var sent;
+	Slot* slp = new Slot;
+	Slot& sl = *slp;
+	if (!reqOf(t, i, r) || !planOf(t, i, sl.plan)) { delete slp; return "bad-op"; }
+	if (!ensureServer()) { delete slp; return "err bind"; }
 	if (r.kind == 'j') { sl.wantJson = true; sl.json = Json::decode(S(r.body)); }
-	{ Lock l(gmx); current = &sl; }
-	HttpResponse res = doRequest(r, srv->thePort, &sl);
+	{ Lock l(gmx); current = slp; }
+	HttpResponse res = doRequest(r, srv->thePort, slp);
 	Var want;
 	if (sl.plan.kind == 'j') want = Json::decode(S(sl.plan.body));
 	Str c = clientObs(res, srv->thePort, sl.plan.kind == 'j' ? &want : 0);
-	{ Lock l(gmx); current = 0; }
-	return obsOrDash(sl) + " | " + c;
+	Str h;
+	{ Lock l(gmx); current = 0; h = obsOrDash(sl); }
+	retireSlot(slp);
+	return h + " | " + c;
 }
 
 // cwire <req>          real client -> raw server: the request bytes on the wire
@@ -800,7 +840,7 @@ static Str opRaw(const Toks& t)
 		pthread_create(&th, 0, Sender::run, &sd);
 		for (size_t j = 0; j < sls.size(); j++) {
 			Str msg;
-			bool got = rawReadMessage(fd, pending, msg, 1500);
+			bool got = rawReadResponse(fd, pending, msg, 1500);
 			Str h = obsOrDash(*sls[j]);
 			out += (j ? " ; " : "") + h + " " + wireStr(canonWire(msg, srv->thePort)) + (got ? "" : " short");
 		}
@@ -815,15 +855,15 @@ static Str opRaw(const Toks& t)
 			sendPieces(fd, streams[j], cuts[j]);
 			if (j + 1 == sls.size()) shutdown(fd, SHUT_WR);
 			Str msg;
-			bool got = rawReadMessage(fd, pending, msg, 1500);
+			bool got = rawReadResponse(fd, pending, msg, 1500);
 			out += (j ? " ; " : "") + obsOrDash(*sls[j]) + " " + wireStr(canonWire(msg, srv->thePort)) + (got ? "" : " short");
 		}
 		Str rest = pending + readToEof(fd, 1500);
 		out += " ; R" + str((long long)rest.size());
 	}
 	close(fd);
-	{ Lock l(gmx); current = 0; }
-	for (size_t j = 0; j < sls.size(); j++) delete sls[j];
+	{ Lock l(gmx); current = 0; slotQueue.clear(); slotPos = 0; }
+	for (size_t j = 0; j < sls.size(); j++) retireSlot(sls[j]);
 	return out;
 }
 
@@ -833,18 +873,21 @@ static Str opBig(const Toks& t)
 {
 	size_t i = 1;
 	Req r;
-	Slot sl;
-	if (!reqOf(t, i, r) || !planOf(t, i, sl.plan)) return "bad-op";
-	if (!ensureServer()) return "err bind";
-	{ Lock l(gmx); current = &sl; }
-	HttpResponse res = doRequest(r, srv->thePort, &sl);
+	Slot* slp = new Slot;
+	Slot& sl = *slp;
+	if (!reqOf(t, i, r) || !planOf(t, i, sl.plan)) { delete slp; return "bad-op"; }
+	if (!ensureServer()) { delete slp; return "err bind"; }
+	{ Lock l(gmx); current = slp; }
+	HttpResponse res = doRequest(r, srv->thePort, slp);
 	Str c = clientObs(res, srv->thePort, 0);
-	{ Lock l(gmx); current = 0; }
-	Str h = obsOrDash(sl);
-	Str wantH = " " + digest(r.body), wantC = " " + digest(sl.plan.body) + " E-";
+	Str h;
+	{ Lock l(gmx); current = 0; h = obsOrDash(sl); }
+	Plan planCopy = sl.plan;
+	retireSlot(slp);
+	Str wantH = " " + digest(r.body), wantC = " " + digest(planCopy.body) + " E-";
 	bool okH = h.size() >= wantH.size() && h.compare(h.size() - wantH.size(), wantH.size(), wantH) == 0;
 	bool okC = c.size() >= wantC.size() && c.compare(c.size() - wantC.size(), wantC.size(), wantC) == 0;
-	bool okCode = c.compare(0, 2 + str(sl.plan.code).size() + 1, "C " + str(sl.plan.code) + " ") == 0;
+	bool okCode = c.compare(0, 2 + str(planCopy.code).size() + 1, "C " + str(planCopy.code) + " ") == 0;
 	if (okH && okC && okCode) return "ok 1";
 	return "bad handler-saw=" + h.substr(h.size() > 60 ? h.size() - 60 : 0) + " sent" + wantH + " client-saw=" + c.substr(0, 300) + " produced" + wantC;
 }
@@ -989,9 +1032,12 @@ static Str opPar(const Toks& t)
 	{
 		Lock l(gmx);
 		for (int i = 0; i < n; i++) {
-			for (size_t r = 0; r < cs[i]->slots.size(); r++) { slots.erase(cs[i]->tokens[r]); delete cs[i]->slots[r]; }
-			delete cs[i];
+			for (size_t r = 0; r < cs[i]->slots.size(); r++) slots.erase(cs[i]->tokens[r]);
 		}
+	}
+	for (int i = 0; i < n; i++) {
+		for (size_t r = 0; r < cs[i]->slots.size(); r++) retireSlot(cs[i]->slots[r]);
+		delete cs[i];
 	}
 	if (bad.empty() && ok == n * rounds) return "ok " + str(ok);
 	return "bad " + str(ok) + "/" + str(n * rounds) + " " + bad;
